@@ -107,7 +107,15 @@ func (fs *CASFileSystem) ChangeDir(path string) *CASFileSystem {
 	}
 }
 
+// maxSymlinkHops is the number of symlinks open will follow before giving up (as the OS does with ELOOP).
+const maxSymlinkHops = 40
+
 func (fs *CASFileSystem) open(name string) (iofs.File, error) {
+	return fs.openFollowing(name, 0)
+}
+
+// openFollowing opens the named file, having already followed the given number of symlinks to get here.
+func (fs *CASFileSystem) openFollowing(name string, hops int) (iofs.File, error) {
 	fileNode, dirNode, linkNode, err := fs.findNode(fs.root, name)
 	if err != nil {
 		return nil, err
@@ -116,8 +124,10 @@ func (fs *CASFileSystem) open(name string) (iofs.File, error) {
 	if linkNode != nil {
 		if filepath.IsAbs(linkNode.Target) {
 			return nil, fmt.Errorf("%v: symlink target was absolute which is invalid", name)
+		} else if hops >= maxSymlinkHops {
+			return nil, fmt.Errorf("%v: too many levels of symbolic links", name)
 		}
-		return fs.open(filepath.Join(filepath.Dir(name), linkNode.Target))
+		return fs.openFollowing(filepath.Join(filepath.Dir(name), linkNode.Target), hops+1)
 	}
 
 	if fileNode != nil {
